@@ -106,7 +106,13 @@ SCHED_STATES = ["cold", "nofolder", "Q-empty", "Q-frame", "Q-mid", "D-empty", "D
 SPECIAL_STATES = ["nofolder", "empty-folder", "only-locks", "missing-Q", "missing-D", "empty-Q", "empty-D", "empty-both",
                   "no-locks-trunc", "wrongtype-Q", "wrongtype-D", "swapped", "wrongclass-Q", "wrongclass-D"]
 STALE_KINDS = ["touch-device-yaml", "edit-device-yaml", "touch-cfg-file", "edit-cfg-file", "touch-defaults", "edit-defaults",
-               "edit-cfg-file+cached-file-vanished", "edit-cfg-file+other-process-first", "edit-device-yaml+other-process-first"]
+               "edit-cfg-file+cached-file-vanished", "edit-cfg-file+other-process-first", "edit-device-yaml+other-process-first",
+               # the edit lands inside the same wall-clock second as the previous modification (a script that generates data,
+               # runs SPSDK, patches a value, runs SPSDK again)
+               "edit-cfg-file~same-second", "edit-device-yaml~same-second", "edit-defaults~same-second",
+               # the other data folders a cache covers: a device that exists only in the restricted-data folder, and the
+               # add-ons overlay of a standard device
+               "edit-restricted-device-yaml", "edit-addons-device-yaml"]
 
 _S: dict = {}
 
@@ -197,6 +203,7 @@ def _env(cache: str, data: str | None = None) -> dict:
     })
     if data:
         env["SPSDK_DATA_FOLDER"] = data
+    env.update(_S.get("extra_env") or {})  # restricted-data / add-ons folder of the stale cases that use one
     return env
 
 
@@ -883,10 +890,51 @@ def _swap_in_value(text: str, keys=("description", "title")) -> str | None:
     return None
 
 
+def _extra_folder(ctx, which: str, data: str) -> tuple[dict, str]:
+    """A restricted-data or add-ons folder next to the scratch data folder -> (environment for the children, the device
+    file inside it that the stale case edits).
+
+    restricted: <root>/metadata.yaml (version of the tree under test) + <root>/data/devices/0vf-restricted/ = a device
+    that exists ONLY there (a copy of a standard device's file, its other files as symlinks).  add-ons: the overlay
+    <root>/devices/<first standard device>/database.yaml replacing that device's ``info`` section."""
+    import yaml
+
+    devs = sorted(os.listdir(os.path.join(data, "devices")))
+    src_dev = next(d for d in devs if "https://www.nxp.com" in _read(os.path.join(data, "devices", d, "database.yaml")).decode())
+    root = os.path.join(ctx.workdir, f"extra-{which}")
+    shutil.rmtree(root, ignore_errors=True)
+    if which == "restricted":
+        core.setup_import_path()
+        from spsdk import version
+
+        ddir = os.path.join(root, "data", "devices", "0vf-restricted")
+        os.makedirs(ddir)
+        _write(os.path.join(root, "metadata.yaml"), f'version: "{version.major}.{version.minor}"\n'.encode())
+        for f in os.listdir(os.path.join(data, "devices", src_dev)):
+            sp = os.path.realpath(os.path.join(data, "devices", src_dev, f))
+            if f == "database.yaml":
+                text = re.sub(r"^\s*spsdk_predecessor_name:.*\n", "", _read(sp).decode(), flags=re.M)  # one name, one device
+                _write(os.path.join(ddir, f), text.encode())
+            else:
+                os.symlink(sp, os.path.join(ddir, f))
+        return {"SPSDK_RESTRICTED_DATA_FOLDER": root}, os.path.join(ddir, "database.yaml")
+    ddir = os.path.join(root, "devices", src_dev)
+    os.makedirs(ddir)
+    cfg = yaml.safe_load(_read(os.path.join(data, "devices", src_dev, "database.yaml")).decode())
+    _write(os.path.join(ddir, "database.yaml"), yaml.safe_dump({"info": cfg["info"]}, sort_keys=False).encode())
+    return {"SPSDK_ADDONS_DATA_FOLDER": root}, os.path.join(ddir, "database.yaml")
+
+
 def _stale_target(ctx, kind: str, data: str) -> tuple[str, str | None]:
     """(file to touch / edit, new text or None for a pure mtime bump)."""
     devs = sorted(os.listdir(os.path.join(data, "devices")))
     edit = kind.startswith("edit-")
+    if kind in ("edit-restricted-device-yaml", "edit-addons-device-yaml"):
+        path = _S["extra_file"]
+        text = _read(path).decode()
+        if "https://www.nxp.com" not in text:
+            raise core.Inconclusive("no web link in the device file of the extra data folder")
+        return path, text.replace("https://www.nxp.com", "https://www.nxq.com", 1)
     if kind.endswith("device-yaml"):
         # the first device of the sorted list is always part of the query sample
         for dev in devs[:1] + devs:
@@ -916,12 +964,15 @@ def _stale_target(ctx, kind: str, data: str) -> tuple[str, str | None]:
 class _Mutation:
     """Same-size edit and/or mtime bump of one file of the scratch data copy, undone on exit."""
 
-    def __init__(self, path: str, new_text: str | None):
+    def __init__(self, path: str, new_text: str | None, same_second: bool = False):
         _guard_scratch(path)
         self.path, self.new = path, new_text
         self.old = _read(path)
         st = os.stat(path)
         self.times = (st.st_atime_ns, st.st_mtime_ns)
+        # new modification time: 7 s later, or 0.4 s away but inside the same wall-clock second
+        frac = st.st_mtime_ns % 1_000_000_000
+        self.delta = (400_000_123 if frac < 500_000_000 else -400_000_123) if same_second else 7_000_000_123
 
     def __enter__(self):
         if self.new is not None:
@@ -929,7 +980,9 @@ class _Mutation:
             if len(nb) != len(self.old) or nb == self.old:
                 raise core.Inconclusive("stale edit must keep the size and change the content")
             _write(self.path, nb)
-        os.utime(self.path, ns=(self.times[0], self.times[1] + 7_000_000_123))
+        os.utime(self.path, ns=(self.times[0], self.times[1] + self.delta))
+        if os.stat(self.path).st_mtime_ns == self.times[1]:
+            raise core.Inconclusive("the file system does not keep sub-second modification times")
         return self
 
     def __exit__(self, *a):
@@ -941,8 +994,23 @@ class _Mutation:
 def _case_stale(case, ctx):
     kind = case["name"]
     data = _scratch_data(ctx)
-    base = _reference(ctx, data=data, key="ref-scratch")  # warm caches for the unmodified copy
-    wdir, cache = _prep(ctx, f"stale-{kind}", base)
+    if kind in ("edit-restricted-device-yaml", "edit-addons-device-yaml"):
+        which = kind.split("-")[1]
+        _S["extra_env"], _S["extra_file"] = _extra_folder(ctx, which, data)
+        try:
+            _case_stale_body(case, ctx, kind, data, f"ref-scratch-{which}")
+        finally:
+            _S.pop("extra_env", None)
+            _S.pop("extra_file", None)
+        return
+    _case_stale_body(case, ctx, kind, data, "ref-scratch")
+
+
+def _case_stale_body(case, ctx, kind, data, base_key):
+    same_second = kind.endswith("~same-second")
+    kind_full, kind = kind, kind.replace("~same-second", "")
+    base = _reference(ctx, data=data, key=base_key)  # warm caches for the unmodified copy
+    wdir, cache = _prep(ctx, f"stale-{kind_full}", base)
     vanish = kind.endswith("+cached-file-vanished")
     extra = os.path.join(data, "common", "c18_extra_config.yaml")
     if vanish:
@@ -955,10 +1023,11 @@ def _case_stale(case, ctx):
         if r0["rc"] != 0:
             raise core.Inconclusive(f"could not warm the cache with an extra file: {r0['err'] or _stderr_tail(r0)}")
     path, new = _stale_target(ctx, kind.split("+")[0], data)
-    with _Mutation(path, new):
-        fresh = _reference(ctx, data=data, key=f"ref-{kind}")  # fresh cache folder on the modified copy
-        what = {"state": f"stale:{kind}", "file": os.path.relpath(path, data),
-                "edit": "same-size content edit + mtime bump" if new is not None else "mtime bump only"}
+    with _Mutation(path, new, same_second):
+        fresh = _reference(ctx, data=data, key=f"ref-{kind_full}")  # fresh cache folder on the modified copy
+        what = {"state": f"stale:{kind_full}", "file": os.path.relpath(path, data),
+                "edit": ("same-size content edit, modification time 0.4 s away inside the same second" if same_second else
+                         "same-size content edit + mtime bump") if new is not None else "mtime bump only"}
         if kind.endswith("+other-process-first"):
             # history: a short-lived process starts on the stale cache, needs only OTHER data files (it stores them, which
             # re-reads and merges whatever cache is on disk) and exits; only then a process asks for the edited file
@@ -975,11 +1044,11 @@ def _case_stale(case, ctx):
         ok2 = ok and _check_folder(ctx, cache, fresh, dict(what, stage="files after the start on the stale cache"))
         visible = fresh["digest"] != base["digest"]
         shutil.rmtree(fresh["cache"], ignore_errors=True)
-        _S.pop((f"ref-{kind}", "full"), None)
+        _S.pop((f"ref-{kind_full}", "full"), None)
     if new is not None and not visible:
         raise core.Inconclusive(f"the edit of {what['file']} is not visible in the query digest: the stale case decides nothing")
     if ok and ok2:
-        ctx.ok(["stale", kind], sample=dict(what, visible_in_digest=visible))
+        ctx.ok(["stale", kind_full], sample=dict(what, visible_in_digest=visible))
 
 
 # -- entry points --------------------------------------------------------------------------------
